@@ -180,6 +180,7 @@ def _build_unit(pid, uname, u, d):
     if u.get('m1ptr'): cmd.append('--m1ptr')   # sentinel pointer (T*)-1 as the address of an object (flow graph SUCCESSFULLY_ENQUEUED)
     if u.get('looporder'): cmd.append('--looporder')   # seq mode: contiguous loop layout for cbmc
     if u.get('lvalpath'): cmd.append('--lvalpath')   # loads/stores through GEP results emitted on the field-path lvalue (see ir2c.py LVALPATH)
+    if u.get('ptrtag'): cmd.append('--ptrtag')   # pointers compared with run-time small-integer tags ((T*)1 from memory), see ir2c.py PTRTAG
     if u.get('ptrcmp'): cmd.append('--ptrcmp')   # pointer-vs-small-constant ordering comparisons in a form cbmc's symex can fold (see ir2c.py PTRCMP)
     if u.get('ptrhooks'): cmd.append('--ptrhooks')   # inttoptr/ptrtoint via harness hooks vp_i2p/vp_p2i
     for c in cuts: cmd += ['--cut', c]
